@@ -158,6 +158,7 @@ func (P *Program) registerIntrinsics() {
 	P.registerVHDB()
 	P.registerWriteStmts()
 	P.registerGin()
+	P.registerCSV()
 }
 
 func (P *Program) registerVH() {
@@ -329,6 +330,7 @@ func (P *Program) registerVH() {
 		v := in.concretize(t, "vh.Concrete")
 		return in.constLike(t, v)
 	})
+	P.reg(VH+".Concretely", func(fr *frame, args []value) value { return fr.in.boolv(fr.in.branch(tm(args[0]))) })
 	P.reg(VH+".Settle", func(fr *frame, args []value) value { return nil })
 	P.reg(VH+".MustNotBlock", func(fr *frame, args []value) value {
 		in := fr.in
